@@ -54,6 +54,11 @@ func (in *Interp) writeTo(w Value, s string) {
 	case *Buf:
 		x.B.WriteString(s)
 	case *Ptr:
+		// &b of a strings.Builder / bytes.Buffer variable
+		if b, ok := x.C.V.(*Buf); ok {
+			b.B.WriteString(s)
+			return
+		}
 		// *iohelp.ErrorWriter
 		if sv, ok := x.C.V.(*StructV); ok && sv.T != nil && sv.T.Obj().Name() == "ErrorWriter" {
 			in.writeTo(sv.Get("Writer"), s)
@@ -346,7 +351,8 @@ func (in *Interp) native(fv *FuncV, args []Value, at token.Pos) []Value {
 				}
 				return nil
 			}
-			panic(evalErr("slices.Sort of a non-string slice"))
+			sort.SliceStable(s.E, func(i, j int) bool { return compareValues(s.E[i].V, s.E[j].V, in, at) < 0 })
+			return nil
 		}
 		return nil
 	case "sort.Strings":
@@ -391,16 +397,100 @@ func (in *Interp) native(fv *FuncV, args []Value, at token.Pos) []Value {
 			sort.Stable(sorter{in, s, less})
 		}
 		return nil
-	case "(*bytes.Buffer).String":
-		return []Value{recv.(*Buf).B.String()}
-	case "(*bytes.Buffer).Write":
-		recv.(*Buf).B.WriteString(str(args[0]))
+	case "maps.Copy":
+		dst, _ := args[0].(*MapV)
+		src, _ := args[1].(*MapV)
+		if src != nil {
+			if dst == nil {
+				panic(evalErr("maps.Copy into a nil map at %s (generator would panic)", in.pos(at)))
+			}
+			for k, c := range src.M {
+				dst.M[k] = &Cell{V: copyVal(c.V)}
+			}
+		}
+		return nil
+	case "maps.Clone":
+		src, _ := args[0].(*MapV)
+		if src == nil {
+			return []Value{nil}
+		}
+		out := &MapV{M: map[interface{}]*Cell{}}
+		for k, c := range src.M {
+			out.M[k] = &Cell{V: copyVal(c.V)}
+		}
+		return []Value{out}
+	case "slices.SortFunc", "slices.SortStableFunc":
+		if sv, ok := args[0].(*SliceV); ok {
+			cmpf := args[1].(*FuncV)
+			sort.SliceStable(sv.E, func(i, j int) bool {
+				r := in.apply(cmpf, []Value{sv.E[i].V, sv.E[j].V}, at)
+				n, _ := r[0].(int64)
+				return n < 0
+			})
+		}
+		return nil
+	case "slices.Reverse":
+		if sv, ok := args[0].(*SliceV); ok {
+			for i, j := 0, len(sv.E)-1; i < j; i, j = i+1, j-1 {
+				sv.E[i].V, sv.E[j].V = sv.E[j].V, sv.E[i].V
+			}
+		}
+		return nil
+	case "slices.Clone":
+		switch sv := args[0].(type) {
+		case *SliceV:
+			out := &SliceV{}
+			for _, c := range sv.E {
+				out.E = append(out.E, &Cell{V: copyVal(c.V)})
+			}
+			return []Value{out}
+		case []byte:
+			return []Value{append([]byte{}, sv...)}
+		case nil:
+			return []Value{nil}
+		}
+	case "cmp.Compare":
+		return []Value{int64(compareValues(args[0], args[1], in, at))}
+	case "cmp.Less":
+		return []Value{compareValues(args[0], args[1], in, at) < 0}
+	case "(*bytes.Buffer).String", "(*strings.Builder).String":
+		return []Value{asBuf(recv).B.String()}
+	case "(*bytes.Buffer).Write", "(*strings.Builder).Write":
+		asBuf(recv).B.WriteString(str(args[0]))
 		return []Value{int64(len(str(args[0]))), nil}
-	case "(*bytes.Buffer).WriteString":
-		recv.(*Buf).B.WriteString(str(args[0]))
+	case "(*bytes.Buffer).WriteString", "(*strings.Builder).WriteString":
+		asBuf(recv).B.WriteString(str(args[0]))
 		return []Value{int64(len(str(args[0]))), nil}
+	case "(*bytes.Buffer).WriteByte", "(*strings.Builder).WriteByte":
+		asBuf(recv).B.WriteByte(byte(args[0].(int64)))
+		return []Value{nil}
+	case "(*bytes.Buffer).WriteRune", "(*strings.Builder).WriteRune":
+		n, _ := asBuf(recv).B.WriteRune(rune(args[0].(int64)))
+		return []Value{int64(n), nil}
+	case "(*bytes.Buffer).Len", "(*strings.Builder).Len":
+		return []Value{int64(asBuf(recv).B.Len())}
+	case "(*bytes.Buffer).Grow", "(*strings.Builder).Grow":
+		return nil
+	case "(*bytes.Buffer).Reset", "(*strings.Builder).Reset":
+		asBuf(recv).B.Reset()
+		return nil
 	case "(*bytes.Buffer).Bytes":
-		return []Value{[]byte(recv.(*Buf).B.String())}
+		return []Value{[]byte(asBuf(recv).B.String())}
+	case "slices.DeleteFunc":
+		sv, ok := args[0].(*SliceV)
+		if !ok {
+			return []Value{args[0]}
+		}
+		del := args[1].(*FuncV)
+		j := 0
+		for _, c := range sv.E {
+			r := in.apply(del, []Value{c.V}, at)
+			if b, _ := r[0].(bool); !b {
+				sv.E[j].V, c.V = c.V, sv.E[j].V
+				j++
+			}
+		}
+		return []Value{&SliceV{E: sv.E[:j]}}
 	case "bytes.NewBuffer":
 		b := &Buf{}
 		if args[0] != nil {
@@ -447,4 +537,59 @@ func (in *Interp) native(fv *FuncV, args []Value, at token.Pos) []Value {
 		}
 	}
 	panic(evalErr("call to %s is outside the evaluator's subset (at %s)", name, in.pos(at)))
+}
+
+// compareValues orders two values of one ordered type.
+func compareValues(a, b Value, in *Interp, at token.Pos) int {
+	switch x := a.(type) {
+	case string:
+		if y, ok := b.(string); ok {
+			return strings.Compare(x, y)
+		}
+	case int64:
+		if y, ok := b.(int64); ok {
+			switch {
+			case x < y:
+				return -1
+			case x > y:
+				return 1
+			}
+			return 0
+		}
+	case U64:
+		if y, ok := b.(U64); ok {
+			switch {
+			case x < y:
+				return -1
+			case x > y:
+				return 1
+			}
+			return 0
+		}
+	case float64:
+		if y, ok := b.(float64); ok {
+			switch {
+			case x < y:
+				return -1
+			case x > y:
+				return 1
+			}
+			return 0
+		}
+	}
+	panic(evalErr("comparison of %T and %T is outside the evaluator's subset (at %s)", a, b, in.pos(at)))
+}
+
+// asBuf: the buffer behind a *bytes.Buffer / *strings.Builder receiver, which
+// is the buffer itself or a pointer to the variable that holds it.
+func asBuf(v Value) *Buf {
+	switch x := v.(type) {
+	case *Buf:
+		return x
+	case *Ptr:
+		if b, ok := x.C.V.(*Buf); ok {
+			return b
+		}
+	}
+	panic(evalErr("expected a buffer, have %T", v))
 }
